@@ -643,3 +643,77 @@ Proof.
   rewrite C. eexists. split; [reflexivity|].
   constructor; cbn [r_journal r_loads r_env r_st r_handles r_dead]; auto.
 Qed.
+
+(** * 10. Whole histories *)
+Fixpoint mtrace (fs : fsys) (c : cfg) (ops : list op) : list obs_step :=
+  match ops with
+  | [] => []
+  | o :: rest =>
+      let c' := fst (step fs c o) in
+      let out := snd (step fs c o) in
+      (Plain o, out, Node (c_cache c'), c_env c') ::
+      (if abnormal out then [] else mtrace fs c' rest)
+  end.
+
+Definition hist_ok (S : tree) (o : op) : bool := op_ok S o && op_wf o.
+
+Theorem judge_ok S fs i : is_node S = true -> forall ops c r,
+  rel fs i S c r -> forallb (hist_ok S) ops = true -> judge fs i r (mtrace fs c ops) = true.
+Proof.
+  intros HS. induction ops as [|o rest IH]; intros c r Hrel Hok; [reflexivity|].
+  cbn [forallb] in Hok. apply andb_true_iff in Hok as [Ho Hrest]. unfold hist_ok in Ho.
+  apply andb_true_iff in Ho as [Hop Hwf].
+  cbn [mtrace judge].
+  destruct (op_ok_kinds S o Hop) as [Hg | Hr].
+  - destruct (path_step_ok S fs i c r o HS Hrel Hop Hwf Hg) as [r' [Ej Hrel']].
+    assert (Ep : is_path_op o = true) by (destruct o; try discriminate; reflexivity).
+    unfold judge_step. rewrite Ep, Ej.
+    destruct (abnormal (snd (step fs c o))); [reflexivity | apply IH; assumption].
+  - destruct (reload_step_ok S fs i c r o HS Hrel Hop Hr) as [[r' Ej] | [r' [Ej Hrel']]]; cbv zeta in Ej;
+      rewrite Ej; [reflexivity|].
+    destruct (abnormal (snd (step fs c o))); [reflexivity | apply IH; assumption].
+Qed.
+
+(** * 11. From the constructor on *)
+Lemma map_norm_nodes l : Forall (fun t => is_node t = true) l -> map norm l = l.
+Proof.
+  induction 1 as [|t l Ht _ IH]; [reflexivity|]. cbn [map]. rewrite IH, (norm_id t Ht). reflexivity.
+Qed.
+
+Lemma start_rel S fs i c0 : is_node S = true -> start fs i = Ok c0 -> good0 S c0 = true ->
+  rel fs i S c0 (mkR (replay (union_of (levels_now fs i [] (Node []))) []) [] [] (Node []) [] []).
+Proof.
+  intros HS Hs H0. pose proof (good0_good S c0 HS H0) as Hg.
+  pose proof (reach_state fs i c0 [] c0 Hs eq_refl eq_refl) as Hat.
+  destruct (at_state_levels fs i [] c0 Hat) as [Hml [_ [_ [_ [He _]]]]]. cbv zeta in Hml.
+  assert (Hlev : lower c0 = levels_now fs i [] (Node [])).
+  { unfold levels_now. rewrite <- model_levels_eq, levels_of_split, map_app in Hml. cbn [map] in Hml.
+    apply app_inj_tail in Hml as [Hml _]. rewrite <- Hml. symmetry. apply map_norm_nodes.
+    pose proof (g_lower _ _ _ Hg) as HL. eapply Forall_impl; [|exact HL]. intros t [_ [N _]]. exact N. }
+  constructor; cbn [r_journal r_loads r_env r_st r_handles r_dead]; auto.
+  rewrite Hlev. reflexivity.
+Qed.
+
+Theorem model_trace_meets_spec S fs i c0 ops :
+  is_node S = true -> start fs i = Ok c0 -> good0 S c0 = true -> forallb (hist_ok S) ops = true ->
+  C06Spec.spec_ok fs i (Node (c_cache c0)) (mtrace fs c0 ops) = true.
+Proof.
+  intros HS Hs H0 Hok. unfold C06Spec.spec_ok.
+  destruct (scope_ok fs i [] (Node [])); [|reflexivity]. cbn [negb]. cbv zeta.
+  pose proof (start_rel S fs i c0 HS Hs H0) as Hrel.
+  apply andb_true_iff. split.
+  - pose proof (rl_good _ _ _ _ _ Hrel) as Hg. cbn [r_journal] in Hg.
+    destruct (good_view_union S c0 [] HS Hg) as [W S0].
+    pose proof (rl_levels _ _ _ _ _ Hrel) as Hlev. cbn [r_loads r_env] in Hlev. rewrite <- Hlev.
+    apply sim_tree_equiv; [exact W | apply (good_cache_conforms S c0 _ HS Hg) | apply sim_sym; exact S0].
+  - apply (judge_ok S fs i HS ops c0 _ Hrel Hok).
+Qed.
+
+(** The trace of the session layer, for histories without held proxies. *)
+Lemma sstep_plain fs s o :
+  s_cfg (fst (sstep fs s (Plain o))) = fst (step fs (s_cfg s) o) /\
+  snd (sstep fs s (Plain o)) = snd (step fs (s_cfg s) o).
+Proof.
+  unfold sstep, step. destruct (step_with (c_cache (s_cfg s)) fs (s_cfg s) o) as [[c' out] eff].
+  destruct eff; split; reflexivity.
+Qed.
